@@ -247,8 +247,9 @@ NOTE_M2 = ("Modelled, not verified: Python's semantics of the fragment (validate
 CLAIMS["C01"] = dict(
     technique="Lean 4: simulation theorem for the source-to-source rewrite (instrument_refines) composed with an erasure theorem for observing handlers (C01_transparent) + AST correspondence with ptera.transform + executable correspondence with CPython and real probes + differential oracle",
     text=M2 + THM + "Erasure theorem (Proofs/Erase*.lean, by induction over the syntax again): with a handler that "
-         "only observes, the reference semantics of a core function without bare declarations whose closure cells hold "
-         "a value when it is called (the rewritten code reads them at entry) is plain Python - globals "
+         "only observes, the reference semantics of a core function without bare declarations (closures included: a cell "
+         "that is still empty at the call is left alone at entry, finding F38 — the hypothesis the proof first forced "
+         "was run on the implementation, failed there, and was repaired away) is plain Python - globals "
          "read at entry equal globals read at use, re-binding a name to itself after Python's own store is a no-op "
          "because the store leaves the name bound, meta events only touch the handler state. Composition "
          "(C01_transparent): for every such function, every capture set, every host that never hands ptera's marker to "
